@@ -61,17 +61,20 @@ def _decode(fmt, data, enc):
     return [(None, t) for t in dec_terminals(text)], ""
 
 
-def _args(src, dest, sf, df, se, de):
+def _args(src, dest, sf, df, se, de, dest_opts=()):
     return argparse.Namespace(src=src, dest=dest, counting=100, trans=[], params=[], src_format=sf, src_enc=ENCS[se],
-                              src_opts=["quiet"], dest_format=df, dest_enc=ENCS[de], dest_opts=[], split="")
+                              src_opts=["quiet"], dest_format=df, dest_enc=ENCS[de], dest_opts=list(dest_opts), split="")
 
 
-def _check_file(name, fmt, enc, mem, sids, what):
+def _check_file(name, fmt, enc, mem, sids, what, four=False):
     """the file decodes (harness decoder) to the reference writer semantics of the in-memory sentences `mem`"""
     if name not in stubs.MemFS.files:
         return "%s: no output file %s" % (what, name)
     try:
-        sents, prob = _decode(fmt, stubs.MemFS.files[name], enc)
+        if fmt == "export" and four:
+            sents, prob = dec_export(stubs.MemFS.files[name].decode(ENCS[enc]), v4=True)
+        else:
+            sents, prob = _decode(fmt, stubs.MemFS.files[name], enc)
     except UnicodeError as e:
         return "%s: output is not valid %s: %s" % (what, ENCS[enc], e)
     if prob:
@@ -84,7 +87,7 @@ def _check_file(name, fmt, enc, mem, sids, what):
             if got != want:
                 return "%s: sentence %d written as %r, expected %r" % (what, i + 1, got, want)
             continue
-        exp = c02._expect(spec, fmt, {}, {})
+        exp = c02._expect(spec, fmt, {'export_four': True} if (four and fmt == "export") else {}, {})
         if fmt == "tigerxml":
             got = ("N", got[1], None, got[3])
         if got != exp:
@@ -125,7 +128,17 @@ def _written(spec, fmt):
     return fill(e, True)
 
 
-def convert(m, n, sf, df, se, de, mode, wsel, back, **kw):
+def _written4(spec):
+    e = c02._expect(spec, "export", {'export_four': True}, {})
+
+    def fill(s, top=False):
+        if s[0] == "T":
+            return s
+        return ("N", s[1], "--" if top and s[2] is None else s[2], tuple(fill(c) for c in s[3]))
+    return fill(e, True)
+
+
+def convert(m, n, sf, df, se, de, mode, wsel, back, four=False, **kw):
     """A -> B (and back to A) through transform.run; mode 0 plain file, 1 directory, 2 gzip source"""
     stubs.install()
     s1 = c01._first(m, n, kw, wsel)
@@ -148,15 +161,24 @@ def convert(m, n, sf, df, se, de, mode, wsel, back, **kw):
     else:
         stubs.MemFS.files["a.in"] = data
         src, dest, out = "a.in", "b.out", "b.out"
+    four = four and dst_f == "export"
     try:
-        transform.run(_args(src, dest, src_f, dst_f, se, de))
+        transform.run(_args(src, dest, src_f, dst_f, se, de, ["export_four"] if four else []))
     except Exception as e:      # noqa
         return "conversion %s -> %s failed: %s: %s" % (src_f, dst_f, type(e).__name__, e)
     mem = [_after_read(s, src_f) for _, s in sents]
-    r = _check_file(out, dst_f, de, mem, sids_src, "%s -> %s" % (src_f, dst_f))
+    r = _check_file(out, dst_f, de, mem, sids_src, "%s -> %s%s" % (src_f, dst_f, " (export_four)" if four else ""), four)
     if r:
         return r
     if dst_f == "terminals":
+        return ""
+    if four:
+        # the lemma column is part of the file now: the tool's own reader must deliver it
+        own = list(treeinput.export(out, ENCS[de], quiet=True))
+        for t, s in zip(own, mem):
+            exp4 = c01._expect(_written4(s), "export", True)
+            if spec_of_tree(t) != exp4:
+                return "%s -> export (export_four): own reader reads %s, expected %s" % (src_f, show(spec_of_tree(t)), show(exp4))
         return ""
     written = [_written(s, dst_f) for s in mem]
     sids_b = sids_src if dst_f in ("export", "tigerxml") else [1, 2]
@@ -252,10 +274,10 @@ def conds(tier):
         lpn = ", ".join("lp%d" % j for j in range(1, n + 1))
         cs.append(Cond("convert-m%d-n%d" % (m, n), "harness.c03:convert",
                        e1_params(m, n) + [P("sf", "int", 0, 4), P("df", "int", 0, 5), P("se", "int", 0, 3), P("de", "int", 0, 3),
-                                          P("mode", "int", 0, 3), P("wsel", "int", 0, 9), P("back", "bool")],
+                                          P("mode", "int", 0, 3), P("wsel", "int", 0, 9), P("back", "bool"), P("four", "bool")],
                        fixed={"m": m, "n": n},
-                       pre=[e1_wf_expr(m, n), "_h.repr_ok(%d, %d, [%s], [%s], sf, df)" % (m, n, ipn, lpn)] +
-                       (["de == (se + mode) % 3 and wsel == (se + df + mode * 3) % 9 and back == (mode == 0)"] if (q or m * n > 4) else
+                       pre=[e1_wf_expr(m, n), "_h.repr_ok(%d, %d, [%s], [%s], sf, df)" % (m, n, ipn, lpn), "not four or (df == 0 and mode == 0 and not back)"] +
+                       (["de == (se + mode) % 3 and wsel == (se + df + mode * 3) % 9 and back == (mode == 0 and not four)"] if (q or m * n > 4) else
                         ["wsel == (se * 3 + de + mode) % 9"]),
                        shard=["sf", "df"] + ([] if (q or m * n > 4) else ["se", "mode"]) + (["lp1"] if m * n >= 9 else []),
                        timeout=600 if q else 3000, functions=FUNCS))
